@@ -6,14 +6,22 @@ import (
 	"os"
 )
 
+var workerFrom = -1
+
 func main() {
 	out := flag.String("out", "", "output directory for case files and run.json")
 	seed := flag.Int64("seed", 1, "PRNG seed")
 	tier := flag.String("tier", "quick", "quick|thorough")
+	repo := flag.String("repo", "/repo", "path of the ichiban/prolog working tree (for generators)")
 	replay := flag.String("replay", "", "replay file to re-run on the implementation")
+	flag.IntVar(&workerFrom, "worker-from", -1, "internal: run as an isolated worker starting at this case id")
 	flag.Parse()
 	if *replay != "" {
 		os.Exit(replayFile(*replay))
+	}
+	if flag.NArg() == 1 && flag.Arg(0) == "gen-bootstrap" {
+		genBootstrap(*repo, *out)
+		return
 	}
 	if flag.NArg() != 1 || *out == "" {
 		fmt.Fprintln(os.Stderr, "usage: harness -out dir [-seed n] [-tier quick|thorough] Cxx")
@@ -25,6 +33,8 @@ func main() {
 	switch flag.Arg(0) {
 	case "C07":
 		runC07(*out, *seed, *tier)
+	case "C01":
+		runC01(*out, *seed, *tier)
 	default:
 		fatal("unknown property %s", flag.Arg(0))
 	}
